@@ -874,10 +874,13 @@ def g_act_probe(rng):
     mvars = {}
     calls = []
     style = rng.choice(["mixed", "mixed", "explicit-then-omitted", "omitted-then-explicit"])
+    # (a later call with MORE positionals than the equal-valued call that created the activation leaves its caller waiting —
+    #  observed hand-shake quirk, the oracle stops there: most programs keep one positional count per program)
+    kfix = rng.choice([None, None, 0, 0, 1, 2])
     for ci in range(ncalls):
         form = "activate" if rng.random() < 0.8 else "start"
         fl = rng.choice(flows)
-        k = rng.choice([0, 0, 1, 1, 2, 3])
+        k = rng.choice([0, 0, 1, 1, 2, 3]) if kfix is None else kfix
         k = min(k, n)
         p_omit = {"mixed": 0.4, "explicit-then-omitted": 0.1 if ci < ncalls // 2 else 0.7, "omitted-then-explicit": 0.7 if ci < ncalls // 2 else 0.1}[style]
         pos, named = [], []
